@@ -47,6 +47,22 @@ static void c14_surface(Buf *b, const char *tag) {
     for (int i = 0; i < 4; i++) { cmd_begin(b, ST_NO_SESSIONS, 0x18A /* TestParms */); b_u16(b, 0x0001); b_u16(b, ALG_NULL); b_u16(b, ALG_NULL); b_u16(b, bits[i]); b_u32(b, 0); Rsp r = run(b);
         fprintf(g_tr, "%s%d:%x", i ? "," : "", bits[i], r.rc); }
     tr_end();
+    /* algorithms, curves, key sizes, modes and schemes where they appear inside a command: TPM2_Hash and TPM2_TestParms */
+    tr_begin("parms tag=%s list=", tag); int firstp = 1;
+    #define C14_PUT(fmt, a1, a2) do { b_put32(b, 2, (uint32_t)b->n); Rsp r_ = run(b); fprintf(g_tr, "%s" fmt ":%x", firstp ? "" : ",", a1, a2, r_.rc); firstp = 0; } while (0)
+    static const uint16_t hs[4] = {ALG_SHA1, ALG_SHA256, ALG_SHA384, ALG_SHA512};
+    for (int i = 0; i < 4; i++) { cmd_begin(b, ST_NO_SESSIONS, CC_Hash); b_2b(b, "abc", 3); b_u16(b, hs[i]); b_u32(b, RH_NULL); C14_PUT("h%u_%u", hs[i], 0); }
+    static const uint16_t curves[8] = {1, 2, 3, 4, 5, 0x10, 0x11, 0x20};
+    for (int i = 0; i < 8; i++) { cmd_begin(b, ST_NO_SESSIONS, 0x18A); b_u16(b, ALG_ECC); b_u16(b, ALG_NULL); b_u16(b, ALG_NULL); b_u16(b, curves[i]); b_u16(b, ALG_NULL); C14_PUT("c%u_%u", curves[i], 0); }
+    static const uint16_t syms[8][2] = {{ALG_AES, 128}, {ALG_AES, 192}, {ALG_AES, 256}, {0x26, 128}, {0x26, 192}, {0x26, 256}, {0x03, 128}, {0x03, 192}};
+    for (int i = 0; i < 8; i++) { cmd_begin(b, ST_NO_SESSIONS, 0x18A); b_u16(b, ALG_SYMCIPHER); b_u16(b, syms[i][0]); b_u16(b, syms[i][1]); b_u16(b, ALG_CFB); C14_PUT("s%u_%u", syms[i][0], syms[i][1]); }
+    for (int m = 0x40; m <= 0x44; m++) { cmd_begin(b, ST_NO_SESSIONS, 0x18A); b_u16(b, ALG_SYMCIPHER); b_u16(b, ALG_AES); b_u16(b, 256); b_u16(b, m); C14_PUT("m%u_%u", m, 0); }
+    for (int i = 0; i < 4; i++) { cmd_begin(b, ST_NO_SESSIONS, 0x18A); b_u16(b, ALG_KEYEDHASH); b_u16(b, ALG_HMAC); b_u16(b, hs[i]); C14_PUT("k%u_%u", hs[i], 0); }
+    static const uint16_t rs[4] = {ALG_RSASSA, 0x15 /* RSAES */, ALG_RSAPSS, ALG_OAEP};
+    for (int i = 0; i < 4; i++) { cmd_begin(b, ST_NO_SESSIONS, 0x18A); b_u16(b, ALG_RSA); b_u16(b, ALG_NULL); b_u16(b, rs[i]); if (rs[i] != 0x15) b_u16(b, ALG_SHA256); b_u16(b, 2048); b_u32(b, 0); C14_PUT("r%u_%u", rs[i], 0); }
+    static const uint16_t es[5] = {ALG_ECDSA, 0x19 /* ECDH */, 0x1A /* ECDAA */, 0x1B /* SM2 */, 0x1C /* ECSCHNORR */};
+    for (int i = 0; i < 5; i++) { cmd_begin(b, ST_NO_SESSIONS, 0x18A); b_u16(b, ALG_ECC); b_u16(b, ALG_NULL); b_u16(b, es[i]); b_u16(b, ALG_SHA384); if (es[i] == 0x1A) b_u16(b, 0); b_u16(b, 4); b_u16(b, ALG_NULL); C14_PUT("e%u_%u", es[i], 0); }
+    tr_end();
 }
 static void c14_active(const char *tag) {
     char *js = TPMLIB_GetInfo(TPMLIB_INFO_ACTIVE_PROFILE); tr_begin("active tag=%s", tag); if (js) trhex("json", (uint8_t *)js, strlen(js)); tr_end(); free(js);
